@@ -7,6 +7,7 @@ import (
 	"encoding/hex"
 	"fmt"
 	"math/rand"
+	"sync"
 
 	"github.com/cosmos/cosmos-proto/runtime"
 	"google.golang.org/protobuf/encoding/protowire"
@@ -63,6 +64,24 @@ func wellFormedRecord(r *rand.Rand, depth int) []byte {
 		num = protowire.Number([]int{1, 15, 16, 2047, 2048, 262143, 262144, 33554431, 33554432, 536870911}[r.Intn(10)])
 	}
 	var b []byte
+	if r.Intn(6) == 0 {
+		// a well-formed record whose tag varint is padded to 6..10 bytes (protowire and the generated decoders accept it)
+		wt := []protowire.Type{protowire.VarintType, protowire.Fixed64Type, protowire.Fixed32Type, protowire.BytesType}[r.Intn(4)]
+		b = appendVarintN(b, uint64(num)<<3|uint64(wt), 6+r.Intn(5))
+		switch wt {
+		case protowire.VarintType:
+			b = protowire.AppendVarint(b, uint64Pool[r.Intn(len(uint64Pool))])
+		case protowire.Fixed64Type:
+			b = protowire.AppendFixed64(b, r.Uint64())
+		case protowire.Fixed32Type:
+			b = protowire.AppendFixed32(b, r.Uint32())
+		default:
+			p := make([]byte, r.Intn(20))
+			r.Read(p)
+			b = protowire.AppendBytes(b, p)
+		}
+		return b
+	}
 	switch r.Intn(6) {
 	case 0:
 		b = protowire.AppendTag(b, num, protowire.VarintType)
@@ -188,6 +207,47 @@ func engineRT(rep *Report) {
 	if si == 0 {
 		rep.Sample("C15", map[string]interface{}{"sweep": "Sov/Soz for every x in [0,2^32), x<<32 and x<<32|0xffffffff vs protowire; EncodeVarint at offsets 10..20 with canaries", "stride_encodevarint": stride})
 	}
+	// ---- EncodeVarint from several goroutines, each on its own buffer (calls on disjoint data are independent)
+	if si == 0 {
+		const G = 8
+		per := perType(100000, 2000000)
+		fails := make([]string, G)
+		var wg sync.WaitGroup
+		for gi := 0; gi < G; gi++ {
+			wg.Add(1)
+			go func(gi int) {
+				defer wg.Done()
+				defer func() {
+					if e := recover(); e != nil {
+						fails[gi] = fmt.Sprint("panic: ", e)
+					}
+				}()
+				rr := rand.New(rand.NewSource(caseSeed(*flagSeed, "encode-concurrent", gi, "rt")))
+				buf := make([]byte, 32)
+				for k := 0; k < per && fails[gi] == ""; k++ {
+					v := rr.Uint64() >> uint(rr.Intn(64))
+					want := protowire.AppendVarint(nil, v)
+					for i := range buf {
+						buf[i] = 0xA5
+					}
+					off := 10 + rr.Intn(11)
+					base := runtime.EncodeVarint(buf, off, v)
+					if base != off-len(want) || !bytes.Equal(buf[base:off], want) || (base > 0 && buf[base-1] != 0xA5) || buf[off] != 0xA5 {
+						fails[gi] = fmt.Sprintf("goroutine %d: EncodeVarint(buf, %d, %#x) returned %d, buffer %x; want %x ending at the offset", gi, off, v, base, buf, want)
+					}
+				}
+			}(gi)
+		}
+		wg.Wait()
+		rep.Count("C15", "encodevarint-concurrent-calls", int64(G*per))
+		rep.Eval("C15", []byte("encode-concurrent"), true)
+		for _, f := range fails {
+			if f != "" {
+				rep.Violate("C15", "rt/encodevarint-concurrent", "runtime", "EncodeVarint called from 8 goroutines on private buffers: "+f, map[string]interface{}{"engine": "rt", "fn": "EncodeVarint", "concurrent": true})
+				break
+			}
+		}
+	}
 	// ---- Skip
 	nskip := rtSkipInputs(rep, -1)
 	rep.Count("C15", "skip-inputs", int64(nskip))
@@ -229,7 +289,22 @@ func rtSkipInputs(rep *Report, only int) int {
 		case 3:
 			in = make([]byte, r.Intn(24))
 			r.Read(in)
-			if r.Intn(3) == 0 { // adversarial lengths
+			if r.Intn(4) == 0 {
+				// an over-long varint payload (11..14 bytes) behind a tag padded to 1..10 bytes, at the top level or inside a
+				// group after a few records (a skipper that lets its cursor move backwards loops or reports no progress)
+				in = nil
+				if r.Intn(2) == 0 {
+					in = protowire.AppendTag(in, protowire.Number(1+r.Intn(100)), protowire.StartGroupType)
+					for k := r.Intn(4); k > 0; k-- {
+						in = append(in, wellFormedRecord(r, 0)...)
+					}
+				}
+				in = appendVarintN(in, uint64(1+r.Intn(1000))<<3, 1+r.Intn(10))
+				for k := 10 + r.Intn(4); k > 0; k-- {
+					in = append(in, 0x80|byte(r.Intn(128)))
+				}
+				in = append(in, byte(r.Intn(128)))
+			} else if r.Intn(3) == 0 { // adversarial lengths
 				in = nil
 				for g := r.Intn(3); g > 0; g-- { // possibly inside (nested) groups
 					in = protowire.AppendTag(in, protowire.Number(1+r.Intn(100)), protowire.StartGroupType)
